@@ -7,6 +7,13 @@
 //       interposed in this executable (the calls originate in nitro's inline headers); reference = one reference count
 //       per successful dlopen.  A library must stay mapped while any holder lives (checked with RTLD_NOLOAD and by
 //       calling the symbol) and be closed exactly once right when the last holder dies.
+#include <cstring>
+#include <sstream>
+#include <fstream>
+#include <unistd.h>
+#include <sys/stat.h>
+#include <sys/wait.h>
+#include <sys/auxv.h>
 #include <nitro/dl/dl.hpp>
 #include <nitro/env/get.hpp>
 
@@ -684,8 +691,126 @@ static void check_env(const std::string& name, const std::string* value, const s
         f.push_back({ "another-variable-disturbed", ctx });
 }
 
+// ---- the process runs in secure-execution mode (AT_SECURE: a set-user-ID executable or one with file capabilities - a
+// usual deployment of measurement tools).  The environment is still the environment: every variable that is set must
+// be reported with its exact value.  The driver copies itself, makes the copy set-user-ID `nobody`, and runs the whole env
+// value list in that process (one variable inherited through exec, the others set by the process itself).  Where the
+// file system does not honour set-user-ID (or the check does not run as root) the phase reports that it could not run.
+static int secure_child()
+{
+    if (getauxval(AT_SECURE) == 0)
+        return 3;
+    int bad = 0;
+    {
+        // inherited through exec: the reference is the environment block itself
+        std::string want;
+        bool found = false;
+        for (char** e = environ; e && *e; e++)
+            if (strncmp(*e, "VP_INHERITED=", 13) == 0)
+            {
+                want = *e + 13;
+                found = true;
+            }
+        std::string got = nitro::env::get("VP_INHERITED", "d");
+        if (!found || got != want)
+        {
+            printf("value-not-returned-exactly\tsecure-execution mode, VP_INHERITED inherited through exec: got %s expected %s\n", mc::jstr(got).c_str(), mc::jstr(want).c_str());
+            bad++;
+        }
+    }
+    auto vals = env_values();
+    mc::Report rep;
+    for (int k = -1; k < static_cast<int>(vals.size()) && bad < 5; k++)
+    {
+        std::vector<Finding> f;
+        check_env("VP_A", k >= 0 ? &vals[k] : nullptr, "VP_B", f, rep);
+        for (auto& x : f)
+        {
+            printf("%s\tsecure-execution mode, %s\n", x.clause.c_str(), x.detail.substr(0, 300).c_str());
+            bad++;
+        }
+    }
+    printf("cases\t%zu\n", vals.size() + 2);
+    return bad ? 1 : 0;
+}
+
+static void secure_phase(const mc::Args& a, mc::Report& total)
+{
+    total.counters["secure_execution_mode_cases"] = 0;
+    if (a.asan() || geteuid() != 0)
+    {
+        total.notes["secure_execution_mode"] = a.asan() ? "not run in the sanitizer variant" : "not run: the check is not running as root, cannot make a set-user-ID copy";
+        return;
+    }
+    std::string path = a.tmpdir + "/c19_secure_child." + std::to_string(getpid());
+    {
+        std::ifstream in("/proc/self/exe", std::ios::binary);
+        std::ofstream out(path, std::ios::binary);
+        out << in.rdbuf();
+    }
+    if (chown(path.c_str(), 65534, 65534) != 0 || chmod(path.c_str(), 04755) != 0)
+    {
+        total.notes["secure_execution_mode"] = "not run: could not make a set-user-ID copy of the driver";
+        unlink(path.c_str());
+        return;
+    }
+    int fd[2];
+    if (pipe(fd) != 0)
+        return;
+    pid_t pid = fork();
+    if (pid == 0)
+    {
+        dup2(fd[1], 1);
+        close(fd[0]);
+        close(fd[1]);
+        setenv("VP_INHERITED", "inherited value=\xc3\xa4 ", 1);
+        execl(path.c_str(), path.c_str(), "--secure-env-child", static_cast<char*>(nullptr));
+        _exit(4);
+    }
+    close(fd[1]);
+    std::string outp;
+    char buf[4096];
+    ssize_t n;
+    while ((n = read(fd[0], buf, sizeof buf)) > 0)
+        outp.append(buf, static_cast<size_t>(n));
+    close(fd[0]);
+    int st = 0;
+    waitpid(pid, &st, 0);
+    unlink(path.c_str());
+    int rc = WIFEXITED(st) ? WEXITSTATUS(st) : 100 + WTERMSIG(st);
+    if (rc == 3 || rc == 4)
+    {
+        total.notes["secure_execution_mode"] = rc == 3 ? "not run: the file system of the build directory does not honour set-user-ID (AT_SECURE stayed 0)" : "not run: exec of the set-user-ID copy failed";
+        return;
+    }
+    std::istringstream is(outp);
+    std::string line;
+    bool any = false;
+    while (std::getline(is, line))
+    {
+        auto tab = line.find('\t');
+        if (tab == std::string::npos)
+            continue;
+        std::string clause = line.substr(0, tab), detail = line.substr(tab + 1);
+        if (clause == "cases")
+        {
+            total.counters["secure_execution_mode_cases"] = atol(detail.c_str());
+            total.count("executions", atol(detail.c_str()));
+            continue;
+        }
+        any = true;
+        total.violation(clause, "C19:" + clause + ":secure-execution-mode", mc::J().s("secure_execution_mode", "1").str(), detail, 0);
+    }
+    if (rc != 0 && !any)
+        total.violation("harness:secure-mode-child-failed", "C19:harness:secure-mode-child", mc::J().s("secure_execution_mode", "1").str(),
+                        "the set-user-ID copy of the driver ended with status " + std::to_string(rc), 0);
+    total.notes["secure_execution_mode"] = "run: set-user-ID copy of the driver, AT_SECURE = 1";
+}
+
 int main(int argc, char** argv)
 {
+    if (argc >= 2 && strcmp(argv[1], "--secure-env-child") == 0)
+        return secure_child();
     auto a = mc::parse_args(argc, argv);
     seqmc::Spec d;
     d.id = "C19";
@@ -698,6 +823,16 @@ int main(int argc, char** argv)
     {
         auto doc = js::load(a.replay);
         const js::Value& w = doc.has("witness") ? doc.at("witness") : doc;
+        if (w.has("secure_execution_mode"))
+        {
+            mc::Report r;
+            secure_phase(a, r);
+            for (auto& v : r.violations)
+                printf("  FAILED clause: %s\n    %s\n", v.second.clause.c_str(), v.second.detail.c_str());
+            if (r.violations.empty())
+                printf("replay C19 (secure-execution mode): conforms (%s)\n", r.notes["secure_execution_mode"].c_str());
+            return r.violations.empty() ? 0 : 1;
+        }
         if (w.has("model") && w.s("model") == "wide")
         {
             mc::Report r;
@@ -748,6 +883,7 @@ int main(int argc, char** argv)
             }
     };
     auto total = sh.run();
+    secure_phase(a, total);
     // ---- dl
     auto r = seqmc::explore(d, a);
     total.merge(r.rep);
